@@ -22,6 +22,7 @@ ASSUMPTIONS = ["legal names: non-empty, no '/', not '.', no NUL",
                "re-appending a member to a link list either leaves the list as it is or moves the entry to the end (A19)",
                "features have no names; only len/iteration/index/id look-ups are judged for tag.features"]
 
+LAYER_B = ['C03']      # monitors of nixmon/passive/plugin.py run over the repository's own tests in the thorough tier
 NSHARDS = 16
 NAMEPOOL = ["zz", "aa", "mm", "a.b", "..", "ü∂", " lead", "trail ", "x" * 300, "y" * 1000,
             "0123456789abcdef0123456789abcdef", "12345678-1234-5678-1234-567812345678", "A", "a",
